@@ -73,6 +73,14 @@ Definition spec_jwk (r : raw_entry) : jwk :=
 
 Definition spec_jwks (rs : list raw_entry) : list jwk := map spec_jwk rs.
 
+(** other key holders publish their (usable) stores; the endpoint serves all holders'
+    keys in registration order *)
+Definition spec_others (fs : list pem_file) : list jwk :=
+  flat_map (fun f => match spec_accept "" f with Some cur => spec_jwks (snd cur) | None => [] end) fs.
+
+Definition spec_published (before after : list pem_file) (rs : list raw_entry) : list jwk :=
+  spec_others before ++ spec_jwks rs ++ spec_others after.
+
 (* ------------------------------------------------------------------ tokens *)
 
 Definition claim_is (k : string) (v : cval) (m : cmap) : bool :=
@@ -145,13 +153,15 @@ Definition reuse_allowed (c : config) : bool := c_cache c && (5 * 1000000000 <? 
     [seen] = tokens handed out earlier in the run *)
 Definition token_ok (c : config) (cur : raw_entry * list raw_entry) (seen : list token)
            (sub : string) (now : Z) (t : token) (verified : bool) : bool :=
-  verified && verifies t (spec_jwks (snd cur)) && header_ok (fst cur) t && claims_ok c sub (t_claims t) &&
+  verified && verifies t (spec_published (c_before c) (c_after c) (snd cur)) && header_ok (fst cur) t
+  && claims_ok c sub (t_claims t) &&
   (if existsb (same_jti t) seen
    then reuse_allowed c && existsb (token_eqb t) seen      (* a reused token is one handed out before *)
    else times_exact c now (t_claims t)).
 
-Definition jwks_ok (cur : raw_entry * list raw_entry) (ks : list jwk) : bool :=
-  list_eqb jwk_eqb ks (spec_jwks (snd cur)) && forallb (fun j => negb (is_private (j_key j))) ks.
+Definition jwks_ok (c : config) (cur : raw_entry * list raw_entry) (ks : list jwk) : bool :=
+  list_eqb jwk_eqb ks (spec_published (c_before c) (c_after c) (snd cur))
+  && forallb (fun j => negb (is_private (j_key j))) ks.
 
 (** the whole run, observation by observation; the current store changes only when a
     reload presents an acceptable file *)
@@ -167,7 +177,7 @@ Fixpoint obs_ok (c : config) (cur : raw_entry * list raw_entry) (seen : list tok
       | None, (XErr | XPanic) => obs_ok c cur seen ops' obs'
       | _, _ => false
       end
-  | OJwks :: ops', XJwks ks :: obs' => jwks_ok cur ks && obs_ok c cur seen ops' obs'
+  | OJwks :: ops', XJwks ks :: obs' => jwks_ok c cur ks && obs_ok c cur seen ops' obs'
   | _, _ => false
   end.
 
